@@ -9,9 +9,14 @@
        The solver gives up if and only if the matrix has a non-trivial GF(2) kernel vector, i.e. lacks
        full column rank (DenseSolveComplete.v), and whether it gives up never depends on the
        right-hand sides.
-   Still missing: dense copy/copyrows/copycols theorems; SWAR popcounts (correspondence only). *)
+   (c) DenseCopyProofs.v: copy / copy-rows / copy-columns are exactly the bit-matrix copies within the
+       bounds of the matrices given (destination larger than the source included, early stop of
+       copy-rows on a bad index included), under the invariants WFd, padzero (padding bits of the last
+       word are zero) and words32 (words below 2^32), all three preserved by every operation; a row is
+       reported empty iff it has no bit.
+   Still missing: the SWAR popcounts (see PopcountProofs.v when present; otherwise correspondence). *)
 From Coq Require Import NArith Arith List Bool.
-From OFV Require Import ListAux Dense DenseProofs DenseSolve DenseSolveProofs DenseSolveComplete DenseSolveNZ.
+From OFV Require Import ListAux Dense DenseProofs DenseCopyProofs DenseSolve DenseSolveProofs DenseSolveComplete DenseSolveNZ.
 Import ListNotations.
 
 Theorem dense_get_after_set : forall m i j v i' j', WFd m -> i < dr m -> j < dc m ->
@@ -55,6 +60,22 @@ Theorem solver_failure_independent_of_rhs :
   (solve Sy sxor s0 p q y1 = None <-> solve Sy sxor s0 p q y2 = None).
 Proof. exact solve_control_independent_of_rhs. Qed.
 
+Theorem dense_get_after_copy : forall m r i j, WFd m -> padzero m -> dr m <= dr r -> dc m <= dc r ->
+  d_get (d_copy m r) i j = if (i <? dr m) && (j <? dc m) then d_get m i j else false.
+Proof. exact get_copy_padzero. Qed.
+
+Theorem dense_get_after_copyrows : forall m r rows t i j, WFd m -> padzero m -> dc m <= dc r -> stops_at m r rows t ->
+  d_get (d_copyrows m r rows) i j = if (i <? t) && (j <? dc m) then d_get m (nth i rows 0) j else false.
+Proof. exact get_copyrows_padzero. Qed.
+
+Theorem dense_get_after_copycols : forall m r cols i j, WFd r -> dr m <= dr r ->
+  d_get (d_copycols m r cols) i j = if (i <? dr m) && (j <? dc r) then d_get m i (nth j cols 0) else d_get r i j.
+Proof. exact get_copycols_gen. Qed.
+
+Theorem dense_row_is_empty_iff : forall m i, WFd m -> padzero m -> words32 m -> i < dr m ->
+  (d_row_is_empty m i = true <-> forall j, j < dc m -> d_get m i j = false).
+Proof. exact row_is_empty_iff. Qed.
+
 (* all-zero rows (whose right-hand side the ML path leaves unspecified) do not influence the result *)
 Theorem solver_ignores_zero_rows :
   forall (Sy : Type) (sxor : Sy -> Sy -> Sy) (s0 : Sy),
@@ -66,6 +87,10 @@ Proof. exact solve_sound_nz. Qed.
 
 Print Assumptions dense_get_after_set.
 Print Assumptions solver_ignores_zero_rows.
+Print Assumptions dense_get_after_copy.
+Print Assumptions dense_get_after_copyrows.
+Print Assumptions dense_get_after_copycols.
+Print Assumptions dense_row_is_empty_iff.
 Print Assumptions solver_returns_the_solution.
 Print Assumptions solver_fails_iff_rank_deficient.
 Print Assumptions solver_failure_independent_of_rhs.
